@@ -365,7 +365,10 @@ func NewWALDecoder(rd io.Reader) *WALDecoder {
 func (dec *WALDecoder) Decode() (*TimedWALMessage, error) {
 	b := make([]byte, 4)
 
-	_, err := dec.rd.Read(b)
+	// NOTE: a record cut off inside its checksum (1-3 bytes left by a crash)
+	// is a torn record, not a clean end of the WAL: io.ReadFull reports it as
+	// io.ErrUnexpectedEOF, and io.EOF only when nothing at all is left.
+	_, err := io.ReadFull(dec.rd, b)
 	if errors.Is(err, io.EOF) {
 		return nil, err
 	}
